@@ -1095,6 +1095,8 @@ class TT():
                 S = tn.sum(C)
         else:
             # we return the TT-tensor with summed indices
+            if any((not isinstance(i, int)) or i < 0 or i >= len(self.__N) for i in index):
+                raise InvalidArguments('Invalid index.')
             cores = []
 
             if self.__is_ttm:
@@ -1110,8 +1112,8 @@ class TT():
                     cores.append(self.cores[i])
 
             S = TT(cores)
-            S.reduce_dims()
-            if len(S.cores) == 1 and tn.numel(S.cores[0]) == 1:
+            S.reduce_dims([i for i in range(len(self.__N)) if i not in index])
+            if len(set(index)) == len(self.__N):
                 S = tn.squeeze(S.cores[0])
         return S
 
